@@ -2,12 +2,14 @@ package props
 
 import (
 	"fmt"
+	"reflect"
 	"strings"
 	"testing"
 
 	ap "github.com/go-ap/activitypub"
 	"pgregory.net/rapid"
 	"verif/harness/ev"
+	"verif/harness/vocab"
 )
 
 // C13 — Collections are insertion-ordered sets under Append/Contains/Remove.
@@ -33,6 +35,8 @@ func c13New(kind string) ap.CollectionInterface {
 }
 
 // pool of items with pairwise non-equivalent ids in mixed shapes
+var c13RichAll []ap.Item
+
 func c13Pool(kind string, variant string) []ap.Item {
 	if variant == "near" {
 		// distinct identities that are as close to each other as identities get: one host and path, the query absent, a subset,
@@ -62,6 +66,34 @@ func c13Pool(kind string, variant string) []ap.Item {
 		}
 		return []ap.Item{ap.IRI(ids[0]), &ap.Object{ID: ap.IRI(ids[1]), Type: ap.NoteType}, ap.IRI(ids[2]), &ap.Actor{ID: ap.IRI(ids[3]), Type: ap.PersonType}, ap.IRI(ids[4]),
 			&ap.Object{ID: ap.IRI(ids[5]), Type: ap.ArticleType}}
+	}
+	if strings.HasPrefix(variant, "rich") && kind != "IRIs" {
+		// members that hold everything their type can hold (pages with prev/next/first/last/partOf, questions with options, places,
+		// relationships ...), one of them nested in a property of a plain object: membership is full equality of such members
+		all := c13RichAll
+		for i, st := range vocab.StructTypes {
+			if c13RichAll != nil {
+				break // built once: members are only read
+			}
+			if st.Name() == "Link" {
+				continue
+			}
+			x := vocab.Everything(st, false)
+			reflect.ValueOf(x).Elem().FieldByName("ID").SetString(fmt.Sprintf("https://example.com/rich/%d", i))
+			all = append(all, x)
+			if st.Name() == "CollectionPage" || st.Name() == "OrderedCollectionPage" {
+				all = append(all, &ap.Object{ID: ap.IRI(fmt.Sprintf("https://example.com/rich/holder-%d", i)), Type: ap.NoteType, Replies: vocab.Everything(st, false)})
+			}
+		}
+		if c13RichAll == nil {
+			c13RichAll = all
+		}
+		k := int(variant[len(variant)-1] - '0')
+		var out []ap.Item
+		for i := 0; i < 6; i++ {
+			out = append(out, all[(3*k+i)%len(all)])
+		}
+		return out
 	}
 	if kind == "IRIs" {
 		var out []ap.Item
@@ -106,6 +138,13 @@ func c13KindVariants() [][2]string {
 	}
 	for _, k := range c13Containers {
 		out = append(out, [2]string{k, "near"}, [2]string{k, "opaque"})
+	}
+	for _, k := range c13Containers {
+		if k != "IRIs" {
+			for _, v := range []string{"rich0", "rich1", "rich2", "rich3", "rich4"} {
+				out = append(out, [2]string{k, v})
+			}
+		}
 	}
 	return out
 }
@@ -239,7 +278,7 @@ func c13NonTrivial(hist []c13Op) bool {
 func TestC13(t *testing.T) {
 	r := ev.Open(t, "C13")
 	defer r.Close(t)
-	r.Rule("histories over a pool of items with pairwise non-equivalent ids in mixed shapes (IRI, Object, Actor, Activity; held by pointer, in the /val variant by value, in the /near variant with ids that differ only in their query, port or last path segment, and in the /opaque variant with URIs that have no authority: urn:, acct:, did:, mailto:, tag:): every history of Append(1 or 2 items)/Remove/Contains " +
+	r.Rule("histories over a pool of items with pairwise non-equivalent ids in mixed shapes (IRI, Object, Actor, Activity; held by pointer, in the /val variant by value, in the /near variant with ids that differ only in their query, port or last path segment, in the /opaque variant with URIs that have no authority: urn:, acct:, did:, mailto:, tag:, and in the /rich0-4 variants with members of all 13 object types holding every property their type has, pages also nested in an object's replies): every history of Append(1 or 2 items)/Remove/Contains " +
 		"up to the length bound over a 3-item pool for each of the 6 containers (Remove through ToItemCollection(container); not offered for IRIs whose item-list view is a copy), then random " +
 		"histories over a 6-item pool; after every step Count(), Collection() order and Contains() of every pool item are compared with a reference ordered set. " +
 		"non-trivial = a Remove after >= 2 appended items or a re-Append of an item seen before; distinct by container + op sequence")
@@ -253,6 +292,9 @@ func TestC13(t *testing.T) {
 			maxLen := maxLen
 			if variant != "" && !r.Thorough() {
 				maxLen--
+			}
+			if strings.HasPrefix(variant, "rich") {
+				maxLen-- // what these pools add shows in the first steps (a member that is not equal to itself, or equal to another)
 			}
 			tag := kind
 			if variant != "" {
